@@ -75,6 +75,10 @@ pub struct Stats {
 }
 
 pub struct HistOut {
+    /// per round: lengths of the log writes n2 issued
+    pub write_lens: Vec<Vec<usize>>,
+    /// (length of the record being written at the crash, true if a build record was torn)
+    pub crashed: Option<(usize, bool)>,
     pub viols: Vec<Viol>,
     pub stats: Stats,
     pub desc: Value,
@@ -90,6 +94,7 @@ pub struct Inv {
 
 thread_local! {
     static DBFAULT_STATE: RefCell<(usize, Option<(usize, usize)>, Option<(bool, bool)>)> = RefCell::new((0, None, None));
+    static DB_LENS: RefCell<Vec<usize>> = RefCell::new(Vec::new());
 }
 
 /// Run one n2 invocation in the current directory with the scripted executor installed.
@@ -128,11 +133,13 @@ pub fn invoke(world: World, spec: InvSpec, tape: OwnedTape) -> Inv {
     n2::verif::set_exec(Some(Box::new(Ex(rc.clone()))));
     n2::verif::set_observer(Some(Box::new(Obs(rc.clone()))));
     DBFAULT_STATE.with(|s| *s.borrow_mut() = (0, fault, None));
+    DB_LENS.with(|l| l.borrow_mut().clear());
     n2::verif::set_db_fault(Some(Box::new(|buf: &[u8]| {
         DBFAULT_STATE.with(|s| {
             let mut s = s.borrow_mut();
             let idx = s.0;
             s.0 += 1;
+            DB_LENS.with(|l| l.borrow_mut().push(buf.len()));
             match s.1 {
                 Some((at, bytes)) if at == idx => {
                     let n = bytes.min(buf.len());
@@ -154,6 +161,7 @@ pub fn invoke(world: World, spec: InvSpec, tape: OwnedTape) -> Inv {
     std::env::set_current_dir(&here).unwrap();
     let mut sh = Rc::try_unwrap(rc).ok().expect("shared state still referenced").into_inner();
     sh.db_writes = DBFAULT_STATE.with(|s| s.borrow().0);
+    sh.db_lens = DB_LENS.with(|l| l.borrow().clone());
     sh.died_in_db = DBFAULT_STATE.with(|s| s.borrow().2);
     let res = match r {
         Ok(Ok(code)) => Res::Exit(code),
@@ -174,10 +182,11 @@ pub fn invoke(world: World, spec: InvSpec, tape: OwnedTape) -> Inv {
     // bring the model's view of the log in line with what reached the file
     let mut written = std::mem::take(&mut sh.dbw);
     if let Some((is_build, complete)) = sh.died_in_db {
-        if !complete {
-            if is_build {
-                written.pop();
-            }
+        // n2 notes a build record just before writing it; path records of the same step come first
+        if is_build && !complete {
+            written.pop();
+        }
+        if !(is_build && complete) {
             if let Some(i) = sh.appended.pop() {
                 sh.world.log.truncate(i);
             }
@@ -670,6 +679,7 @@ pub fn judge(inv: &mut Inv, prev_clean: Option<&BTreeSet<usize>>, prev_failed: &
                     if sh.reloaded {
                         push(&mut v, "C17", "skipped-dirty-step", msg.clone());
                     }
+                    push(&mut v, "C18", "skipped-dirty-step", msg.clone());
                     if failures.is_empty() {
                         push(&mut v, "C06", "wanted-step-undecided", msg);
                     }
@@ -781,6 +791,7 @@ pub fn judge(inv: &mut Inv, prev_clean: Option<&BTreeSet<usize>>, prev_failed: &
                     || inv.proj_before.steps.iter().any(|s| !s.phony && world.missing_sources(&inv.proj_before, s).iter().any(|f| e.contains(f.as_str())));
                 if !ok {
                     push(&mut v, "C06", "spurious-input-missing", format!("error {:?} but no wanted step has a missing source input", e));
+                    push(&mut v, "C09", "spurious-input-missing", format!("error {:?} but no wanted step has a missing declared source input (a vanished discovered dependency must not fail the build)", e));
                 }
             } else if e.contains("unknown pool") {
                 let ok = wanted_final.iter().any(|u| proj.step(*u).map(|s| s.pool.as_ref().map(|p| proj.pool_depth(p).is_none()).unwrap_or(false) && !sh.started_in_epoch(*u)).unwrap_or(false));
@@ -799,7 +810,23 @@ pub fn judge(inv: &mut Inv, prev_clean: Option<&BTreeSet<usize>>, prev_failed: &
 }
 
 /// Decode and run a whole history.  The current directory is reset to a fresh scratch directory.
+pub struct HistOpts<'a> {
+    pub focus: &'a str,
+    pub known: &'a [crate::engine::Finding],
+    /// (round, index of the log write, bytes persisted): die inside that write
+    pub fault: Option<(usize, usize, usize)>,
+    /// plain full builds appended after the case's own rounds: build, repeat, small edit + build
+    pub extra_rounds: usize,
+}
+
 pub fn run_history(case: &Case, prof: &Profile, dir: &Path, focus: &str, known: &[crate::engine::Finding]) -> HistOut {
+    run_history_x(case, prof, dir, &HistOpts { focus, known, fault: None, extra_rounds: 0 })
+}
+
+pub fn run_history_x(case: &Case, prof: &Profile, dir: &Path, opts: &HistOpts) -> HistOut {
+    let (focus, known) = (opts.focus, opts.known);
+    let mut write_lens: Vec<Vec<usize>> = vec![];
+    let mut crashed: Option<(usize, bool)> = None;
     let proj_dir = dir.join("p");
     util::fresh_cwd(&proj_dir);
     let mut mt = Tape::new(&case.main);
@@ -834,13 +861,21 @@ pub fn run_history(case: &Case, prof: &Profile, dir: &Path, focus: &str, known: 
     let mut prev_failed: BTreeSet<usize> = BTreeSet::new();
     let mut prev_spec: Option<InvSpec> = None;
     let empty: Vec<u16> = vec![];
-    let nrounds = case.ops.len().max(prof.min_rounds);
+    let own_rounds = case.ops.len().max(prof.min_rounds);
+    let nrounds = own_rounds + opts.extra_rounds;
     let manifest0 = world.disk.render();
     let mut fp_text = format!("{:?}", manifest0);
     for round in 0..nrounds {
         let mut t = Tape::new(case.ops.get(round).unwrap_or(&empty));
         let mut edits = vec![];
-        let repeat = round > 0 && prev_spec.is_some() && t.chance(prof.repeat_pct);
+        let extra = round >= own_rounds;
+        if extra && round - own_rounds == 2 {
+            // a small edit before the last appended build
+            let s = world.disk.sources[0].clone();
+            world.write_source(&s);
+            edits.push(format!("modify {}", s));
+        }
+        let repeat = !extra && round > 0 && prev_spec.is_some() && t.chance(prof.repeat_pct);
         if round > 0 && !repeat {
             let ne = t.below(prof.max_edits + 1);
             for _ in 0..ne {
@@ -862,7 +897,22 @@ pub fn run_history(case: &Case, prof: &Profile, dir: &Path, focus: &str, known: 
         if world.next.is_none() {
             world.write_manifest();
         }
-        let spec = if repeat { let mut s = prev_spec.clone().unwrap(); s.faults.clear(); s.kill_at = None; s.restat = false; s } else { gen_spec(&mut t, &world, prof) };
+        let mut spec = if extra {
+            InvSpec { j: 2, ..InvSpec::default() }
+        } else if repeat {
+            let mut s = prev_spec.clone().unwrap();
+            s.faults.clear();
+            s.kill_at = None;
+            s.restat = false;
+            s
+        } else {
+            gen_spec(&mut t, &world, prof)
+        };
+        if let Some((r, i, b)) = opts.fault {
+            if r == round {
+                spec.db_fault = Some((i, b));
+            }
+        }
         prev_spec = Some(spec.clone());
         let spec_desc = json!({"j": spec.j, "k": spec.k, "targets": spec.targets, "faults": format!("{:?}", spec.faults), "kill_at": spec.kill_at, "restat": spec.restat, "use_c": spec.use_c});
         let restat = spec.restat;
@@ -870,6 +920,27 @@ pub fn run_history(case: &Case, prof: &Profile, dir: &Path, focus: &str, known: 
         stats.invocations += 1;
         let attr_before = inv.sh.attr.clone();
         let mut v = judge(&mut inv, prev_clean.as_ref(), &prev_failed, &mut stats);
+        write_lens.push(inv.sh.db_lens.clone());
+        if let Some((is_build, complete)) = inv.sh.died_in_db {
+            let i = opts.fault.map(|f| f.1).unwrap_or(0);
+            crashed = Some((inv.sh.db_lens.get(i).copied().unwrap_or(0), is_build && !complete));
+            stats.classes.insert(if is_build { "crash-in-build-record".into() } else { "crash-in-path-record".into() });
+        } else if crashed.is_some() {
+            // C07: after a crash inside a log write every later invocation must load the log, run exactly
+            // what the surviving records imply, and attribute them correctly
+            let mut extra_v = vec![];
+            for x in &v {
+                if ["C02", "C03", "C08"].contains(&x.prop.as_str()) && x.key != "summary" {
+                    extra_v.push(Viol::new("C07", format!("after-crash:{}", x.key), format!("after a crash inside a log write: {}", x.msg)));
+                }
+            }
+            match &inv.res {
+                Res::Error(e) => extra_v.push(Viol::new("C07", "after-crash:error", format!("after a crash inside a log write the next invocation fails: {}", e))),
+                Res::Panic(m, f) => extra_v.push(Viol::new("C07", format!("after-crash:{}", util::panic_key(m, f)), format!("after a crash inside a log write n2 panics: {}", m))),
+                _ => {}
+            }
+            v.extend(extra_v);
+        }
         let res_desc = format!("{:?}", inv.res);
         let res_kind = match inv.res {
             Res::Panic(..) => 2,
@@ -908,7 +979,12 @@ pub fn run_history(case: &Case, prof: &Profile, dir: &Path, focus: &str, known: 
             stats.nontrivial.insert("C03");
             prev_clean = None;
         } else if ok0 {
-            prev_clean = Some(wanted);
+            // a repeat build must do nothing -- provided everything wanted is up to date now (a manifest
+            // generator whose generated inputs were rebuilt after it ran is legitimately dirty again)
+            let attr = world.attributed(&world.disk);
+            let all_clean = wanted.iter().all(|u| world.disk.step(*u).map(|s| !world.dirty(&world.disk, s, &attr)).unwrap_or(true))
+                && world.disk.regen_closure().iter().all(|u| world.disk.step(*u).map(|s| !world.dirty(&world.disk, s, &attr)).unwrap_or(true));
+            prev_clean = if all_clean { Some(wanted) } else { None };
         } else {
             prev_clean = None;
         }
@@ -920,5 +996,198 @@ pub fn run_history(case: &Case, prof: &Profile, dir: &Path, focus: &str, known: 
     }
     let desc = json!({"manifest": manifest0, "includes": format!("{:?}", world.includes), "history": trace});
     std::env::set_current_dir("/").ok();
-    HistOut { viols, stats, desc, fp_text }
+    HistOut { viols, stats, desc, fp_text, write_lens, crashed }
+}
+
+/// C06: graphs with injected back edges.  A cycle through explicit/implicit/order-only edges among the
+/// requested steps must be reported as `dependency cycle: a -> ... -> a` naming a genuine cycle, with
+/// nothing started; cycles closed only by validation edges (or outside the closure) are built normally.
+pub fn run_cycle_case(case: &Case, dir: &Path) -> HistOut {
+    let proj_dir = dir.join("p");
+    util::fresh_cwd(&proj_dir);
+    let mut mt = Tape::new(&case.main);
+    let gen = GenOpts { max_steps: 6, deps: false, regen_pct: 0, rsp: false, ..GenOpts::default() };
+    let mut proj = Proj::gen(&mut mt, &gen);
+    let mut injected = vec![];
+    let nback = 1 + mt.below(2);
+    for _ in 0..nback {
+        let n = proj.steps.len();
+        let a = mt.below(n);
+        let b = a + mt.below(n - a); // b >= a: an edge from an earlier (or the same) step to a later output
+        let o = proj.steps[b].outs[mt.below(proj.steps[b].outs.len())].clone();
+        let role = mt.weighted(&[3, 2, 2, 3]);
+        let st = &mut proj.steps[a];
+        if st.ins.contains(&o) || st.imp.contains(&o) || st.oo.contains(&o) || st.val.contains(&o) {
+            continue;
+        }
+        match role {
+            0 => st.ins.push(o.clone()),
+            1 => st.imp.push(o.clone()),
+            2 => st.oo.push(o.clone()),
+            _ => st.val.push(o.clone()),
+        }
+        injected.push(format!("step {} gets {} input {}", proj.steps[a].uid, ["explicit", "implicit", "order-only", "validation"][role], o));
+    }
+    let mut world = World::new(proj);
+    for s in world.disk.sources.clone() {
+        world.write_source(&s);
+    }
+    world.write_manifest();
+    let mut t = Tape::new(case.ops.first().map(|v| v.as_slice()).unwrap_or(&[]));
+    let prof = Profile { fault_pct: 15, kill_pct: 0, interrupt_pct: 0, ..Profile::default() };
+    let spec = gen_spec(&mut t, &world, &prof);
+    let proj = world.disk.clone();
+    let wanted = proj.wanted(&spec.targets);
+    let cyclic: Vec<usize> = wanted.iter().copied().filter(|u| proj.ancestors(*u).contains(u)).collect();
+    let any_cycle = proj.has_ordering_cycle();
+    let spec_desc = json!({"j": spec.j, "k": spec.k, "targets": spec.targets, "faults": format!("{:?}", spec.faults)});
+    let mut stats = Stats::default();
+    let mut inv = invoke(world, spec, OwnedTape::new(case.sched.clone()));
+    stats.invocations = 1;
+    let mut viols = vec![];
+    let res_desc = format!("{:?}", inv.res);
+    if !cyclic.is_empty() {
+        stats.classes.insert("cycle-in-closure".into());
+        stats.nontrivial.insert("C06");
+        match &inv.res {
+            Res::Error(e) if e.starts_with("dependency cycle: ") => {
+                let names: Vec<&str> = e["dependency cycle: ".len()..].split(" -> ").collect();
+                let mut ok = names.len() >= 2 && names.first() == names.last();
+                for w in names.windows(2) {
+                    // w[0] is produced by a step one of whose ordering inputs is w[1]
+                    ok &= proj.producer(w[0]).map(|p| proj.ordering_files(p).any(|f| f == w[1])).unwrap_or(false);
+                }
+                if !ok {
+                    viols.push(Viol::new("C06", "bogus-cycle-report", format!("reported {:?}, which is not a cycle of the declared graph", e)));
+                }
+            }
+            other => viols.push(Viol::new("C06", "cycle-not-reported", format!("steps {:?} of the requested closure lie on a dependency cycle, but n2 answered {:?}", cyclic, other))),
+        }
+        if !inv.sh.starts.is_empty() {
+            viols.push(Viol::new("C06", "ran-despite-cycle", format!("steps {:?} were started although the requested graph has a cycle", inv.sh.starts.iter().map(|s| s.uid).collect::<Vec<_>>())));
+        }
+    } else {
+        if any_cycle {
+            stats.classes.insert("cycle-outside-closure".into());
+            stats.nontrivial.insert("C06");
+        }
+        if proj.steps.iter().any(|s| s.val.iter().any(|v| proj.producer(v).map(|p| p.uid >= s.uid).unwrap_or(false))) {
+            stats.classes.insert("validation-back-edge".into());
+            stats.nontrivial.insert("C06");
+        }
+        let mut v = judge(&mut inv, None, &BTreeSet::new(), &mut stats);
+        if let Res::Error(e) = &inv.res {
+            if e.starts_with("dependency cycle") {
+                v.push(Viol::new("C06", "false-cycle", format!("n2 reports {:?} but no requested step lies on a cycle of ordering edges", e)));
+            }
+        }
+        viols.append(&mut v);
+    }
+    let manifest0 = inv.proj_before.render();
+    let started: Vec<usize> = inv.sh.starts.iter().map(|s| s.uid).collect();
+    let fp_text = format!("{:?}{:?}{:?}{}", manifest0, spec_desc, started, res_desc);
+    let desc = json!({"manifest": manifest0, "injected": injected, "n2": spec_desc, "result": res_desc, "started": started});
+    std::env::set_current_dir("/").ok();
+    HistOut { viols, stats, desc, fp_text, write_lens: vec![], crashed: None }
+}
+
+/// C08 (a): record shapes.  One step with `nouts` outputs and `ndeps` reported dependencies whose names
+/// have the given length; build, rebuild (nothing may run, what is loaded must equal what was written),
+/// touch one dependency (the step must run), rebuild again.
+pub fn run_shape_case(nouts: usize, ndeps: usize, namelen: usize, multibyte: bool, extra_steps: usize, dir: &Path) -> HistOut {
+    let proj_dir = dir.join("p");
+    util::fresh_cwd(&proj_dir);
+    let mk = |prefix: &str, i: usize| -> String {
+        // components of at most 200 bytes, total length about `namelen`
+        let unit = if multibyte { "\u{e9}\u{20ac}" } else { "ab" };
+        let mut name = format!("{}{}", prefix, i);
+        let mut comp = 0;
+        while name.len() < namelen {
+            if comp >= 190 {
+                name.push('/');
+                comp = 0;
+            }
+            name.push_str(unit);
+            comp += unit.len();
+        }
+        name
+    };
+    let outs: Vec<String> = (0..nouts).map(|i| mk("out", i)).collect();
+    let deps: Vec<String> = (0..ndeps).map(|i| mk("h/d", i)).collect();
+    let mut steps = vec![Step { uid: 0, outs: outs.clone(), nexp: 1 + (nouts - 1) / 2, ins: vec!["s0".into()], imp: vec![], oo: vec![], val: vec![], phony: false, ver: 0, pool: None, rsp: None, deps: 1, restat: false, regen: false }];
+    for k in 0..extra_steps {
+        steps.push(Step { uid: k + 1, outs: vec![format!("e{}", k)], nexp: 1, ins: vec![outs[k % nouts].clone()], imp: vec![], oo: vec![], val: vec![], phony: false, ver: 0, pool: None, rsp: None, deps: (k % 2) as u8, restat: false, regen: false });
+    }
+    let n = steps.len();
+    let mut sources = vec!["s0".to_string()];
+    sources.extend(deps.iter().cloned());
+    let proj = Proj { manifest: "build.ninja".into(), sources, steps, pools: vec![], order: (0..n).rev().collect(), defaults: vec![], builddir: None, style: 0 };
+    let mut world = World::new(proj);
+    for s in world.disk.sources.clone() {
+        world.write_source(&s);
+    }
+    world.includes.insert(0, deps.clone());
+    world.write_manifest();
+    let mut stats = Stats::default();
+    let mut viols = vec![];
+    let mut sched = OwnedTape::new(vec![]);
+    let mut prev_clean: Option<BTreeSet<usize>> = None;
+    let mut trace = vec![];
+    for round in 0..4 {
+        if round == 2 && ndeps > 0 {
+            let d = deps[ndeps / 2].clone();
+            world.clock.touch(&d);
+            prev_clean = None;
+        }
+        let spec = InvSpec { j: 2, ..InvSpec::default() };
+        let mut inv = invoke(world, spec, sched);
+        stats.invocations += 1;
+        let mut v = judge(&mut inv, prev_clean.as_ref(), &BTreeSet::new(), &mut stats);
+        let started: Vec<usize> = inv.sh.starts.iter().map(|s| s.uid).collect();
+        if round == 2 && ndeps > 0 && !started.contains(&0) {
+            v.push(Viol::new("C08", "dep-edit-ignored", format!("a recorded dependency (#{} of {}) was touched but the step did not run", ndeps / 2, ndeps)));
+        }
+        if let Res::Panic(m, f) = &inv.res {
+            v.push(Viol::new("C08", util::panic_key(m, f), format!("n2 panicked: {}", m)));
+        }
+        if let Res::Error(e) = &inv.res {
+            v.push(Viol::new("C08", "error", format!("n2 failed: {}", e)));
+        }
+        trace.push(json!({"round": round, "result": format!("{:?}", inv.res), "started": started}));
+        prev_clean = if matches!(inv.res, Res::Exit(0)) { Some(inv.sh.wanted.clone()) } else { None };
+        world = inv.sh.world;
+        sched = inv.sh.tape;
+        let stop = v.iter().any(|x| x.prop == "C08");
+        viols.append(&mut v);
+        if stop {
+            break;
+        }
+    }
+    let fp_text = format!("shape {} {} {} {} {}", nouts, ndeps, namelen, multibyte, extra_steps);
+    let desc = json!({"shape": {"outputs": nouts, "reported_deps": ndeps, "name_len": namelen, "multibyte": multibyte, "extra_steps": extra_steps}, "history": trace});
+    stats.nontrivial.insert("C08");
+    std::env::set_current_dir("/").ok();
+    HistOut { viols, stats, desc, fp_text, write_lens: vec![], crashed: None }
+}
+
+/// Pinned reproduction of finding F10: a name that survives only in `.n2_db` is accepted as a target.
+pub fn run_f10_scenario(dir: &Path) -> HistOut {
+    let proj_dir = dir.join("p");
+    util::fresh_cwd(&proj_dir);
+    let mk = |uid: usize, out: &str| Step { uid, outs: vec![out.to_string()], nexp: 1, ins: vec!["s0".into()], imp: vec![], oo: vec![], val: vec![], phony: false, ver: 0, pool: None, rsp: None, deps: 0, restat: false, regen: false };
+    let proj = Proj { manifest: "build.ninja".into(), sources: vec!["s0".into()], steps: vec![mk(0, "a"), mk(1, "b")], pools: vec![], order: vec![0, 1], defaults: vec![], builddir: None, style: 0 };
+    let mut world = World::new(proj);
+    world.write_source("s0");
+    world.write_manifest();
+    let mut stats = Stats::default();
+    let inv = invoke(world, InvSpec { j: 1, ..InvSpec::default() }, OwnedTape::new(vec![]));
+    let mut world = inv.sh.world;
+    world.disk.steps.remove(0);
+    world.disk.order = vec![0];
+    world.write_manifest();
+    let mut inv = invoke(world, InvSpec { j: 1, targets: vec!["a".into()], ..InvSpec::default() }, OwnedTape::new(vec![]));
+    let viols = judge(&mut inv, None, &BTreeSet::new(), &mut stats);
+    let desc = json!({"scenario": "build a and b; remove the statement producing `a`; request `a`", "result": format!("{:?}", inv.res), "stdout": inv.stdout});
+    std::env::set_current_dir("/").ok();
+    HistOut { viols, stats, desc, fp_text: "F10".into(), write_lens: vec![], crashed: None }
 }
